@@ -11,7 +11,7 @@ import os
 import sys
 
 # pin BLAS threads before numpy is imported anywhere: shards are processes, not threads
-for _v in ("OMP_NUM_THREADS", "OPENBLAS_NUM_THREADS", "MKL_NUM_THREADS", "NUMEXPR_NUM_THREADS"):
+for _v in ("OMP_NUM_THREADS", "OPENBLAS_NUM_THREADS", "MKL_NUM_THREADS", "NUMEXPR_NUM_THREADS", "RAYON_NUM_THREADS"):
     os.environ.setdefault(_v, "1")
 if os.environ.get("PYTHONHASHSEED") != "0":
     os.environ["PYTHONHASHSEED"] = "0"
@@ -303,6 +303,44 @@ def _trim(case, limit=1500):
     return cut(case)
 
 
+def _replay_tier(pid, out_path):
+    """Replay the witnesses of open known findings and every committed replay file; write the outcome as JSON."""
+    res = {"violations": [], "harness_errors": [], "enabled_known": {}, "known_lines": [], "replayed": 0}
+    try:
+        _mod, subs = load_property(pid)
+        witness_files = set()
+        for e in load_known(pid):
+            if e.get("status") != "open":
+                continue
+            wpath = ROOT / e["witness"]
+            witness_files.add(wpath.resolve())
+            out = replay_file(subs, wpath)
+            if out[0] == "violation" and out[1] == e["signature"]:
+                res["known_lines"].append(f"KNOWN-FINDING: property={pid} {e['text']}")
+                res["enabled_known"][e["signature"]] = e["id"]
+            elif out[0] == "violation":
+                res["violations"].append((e["witness"], out[1], out[2]))
+            elif out[0] == "harness":
+                res["harness_errors"].append(out[1])
+            # passes / inconclusive: filter stays off, nothing printed
+        rdir = ROOT / "replays" / pid
+        if rdir.is_dir():
+            for f in sorted(rdir.glob("*.json")):
+                if f.resolve() in witness_files:
+                    continue
+                res["replayed"] += 1
+                out = replay_file(subs, f)
+                if out[0] == "violation":
+                    if out[1] in res["enabled_known"]:
+                        continue
+                    res["violations"].append((str(f.relative_to(ROOT)), out[1], out[2]))
+                elif out[0] == "harness":
+                    res["harness_errors"].append(f"{f}: {out[1]}")
+    except BaseException as exc:  # noqa: BLE001
+        res["harness_errors"].append(f"replay tier: {type(exc).__name__}: {exc}\n" + traceback.format_exc()[-2000:])
+    Path(out_path).write_text(json.dumps(res))
+
+
 # ----------------------------------------------------------------------------------------------
 # main
 # ----------------------------------------------------------------------------------------------
@@ -353,38 +391,31 @@ def main():
 
     violations = []  # (replay path, signature, message)
     harness_errors = []
-    # ---- replay tier ----------------------------------------------------------------------
-    enabled_known = {}
-    known_entries = load_known(pid)
-    witness_files = set()
-    for e in known_entries:
-        if e.get("status") != "open":
-            continue
-        wpath = ROOT / e["witness"]
-        witness_files.add(wpath.resolve())
-        out = replay_file(subs, wpath)
-        if out[0] == "violation" and out[1] == e["signature"]:
-            print(f"KNOWN-FINDING: property={pid} {e['text']}")
-            enabled_known[e["signature"]] = e["id"]
-        elif out[0] == "violation":
-            violations.append((e["witness"], out[1], out[2]))
-        elif out[0] == "harness":
-            harness_errors.append(out[1])
-        # passes / inconclusive: filter stays off, nothing printed
-    replayed = 0
-    rdir = ROOT / "replays" / pid
-    if rdir.is_dir():
-        for f in sorted(rdir.glob("*.json")):
-            if f.resolve() in witness_files:
-                continue
-            replayed += 1
-            out = replay_file(subs, f)
-            if out[0] == "violation":
-                if out[1] in enabled_known:
-                    continue
-                violations.append((str(f.relative_to(ROOT)), out[1], out[2]))
-            elif out[0] == "harness":
-                harness_errors.append(f"{f}: {out[1]}")
+    # ---- replay tier (in a forked child: native thread pools started by a solver in the parent would not exist in
+    #      the forked shards, which then wait on them forever) ------------------------------------------------------
+    tmp0 = Path(tempfile.mkdtemp(prefix=f"tqv_{pid}_rt_"))
+    ctx0 = mp.get_context("fork")
+    rt_out = tmp0 / "replay_tier.json"
+    pr0 = ctx0.Process(target=_replay_tier, args=(pid, str(rt_out)))
+    pr0.start()
+    pr0.join(WALL_LIMIT[args.tier])
+    if pr0.is_alive():
+        pr0.kill()
+        pr0.join()
+        harness_errors.append("replay tier exceeded the wall limit")
+        rt = {"violations": [], "harness_errors": [], "enabled_known": {}, "known_lines": [], "replayed": 0}
+    elif not rt_out.exists():
+        harness_errors.append(f"replay tier died (exit {pr0.exitcode})")
+        rt = {"violations": [], "harness_errors": [], "enabled_known": {}, "known_lines": [], "replayed": 0}
+    else:
+        rt = json.loads(rt_out.read_text())
+    shutil.rmtree(tmp0, ignore_errors=True)
+    for line in rt["known_lines"]:
+        print(line)
+    violations.extend(tuple(v) for v in rt["violations"])
+    harness_errors.extend(rt["harness_errors"])
+    enabled_known = rt["enabled_known"]
+    replayed = rt["replayed"]
 
     # ---- generated search -----------------------------------------------------------------
     only = set(args.only.split(",")) if args.only else None
